@@ -1,8 +1,9 @@
 (* Nodes.v -- multi-node histories of verifying LogStores.
    A node = middleware state + underlying store (contiguous-log spec) + the
-   hand-off channel state.  [n_shadow] is ghost: the same store as it would be
-   without at-rest corruption, i.e. exactly what the node WROTE and still holds
-   (it evolves by the same StoreLogs/DeleteRange calls and is never tampered).
+   hand-off channel state.  [n_shadow] is ghost: the log as the node WROTE it --
+   the same StoreLogs calls, never tampered at rest, tail truncations applied,
+   but pure head truncations (compaction) do not erase it ([aligned]): the
+   running sum still covers entries that were written and compacted away.
    Nodes interact only through what the environment feeds them: HStore takes an
    arbitrary batch, which covers leader appends, replication with any batch
    split, conflicting suffixes after a leadership change and in-flight
@@ -42,9 +43,7 @@ Section WithCheckpointFn.
 
   Definition node_delete (nd : node) (mn mx : N) : bool * node :=
     let '(ok, v', s') := vdelete_range (n_v nd) (n_store nd) mn mx in
-    let sh' := if ok then match delete_range (n_shadow nd) mn mx with
-                          | Some x => x | None => n_shadow nd end
-               else n_shadow nd in
+    let sh' := if ok then shadow_delete (n_store nd) (n_shadow nd) mn mx else n_shadow nd in
     (ok, {| n_v := v'; n_store := s'; n_shadow := sh'; n_fail := n_fail nd; n_c := n_c nd |}).
 
   Definition node_restart (nd : node) : node :=
